@@ -48,7 +48,7 @@ func init() {
 		{"jsonx", "", "parseTypeName"}, {"jsonx", "", "parseSeries"},
 		{"jsonx", "", "parseStringValue"}, {"jsonx", "", "parseFloatValue"},
 		{"jsonx", "", "parseObjectEntries"}, {"jsonx", "", "parseListEntries"},
-		{"jsonx", "", "parseIdentList"}, {"jsonx", "", "parseValue"},
+		{"jsonx", "", "parseIdentList"}, {"jsonx", "", "parseValue"}, {"jsonx", "parser", "enterNested"},
 		{"jsonx", "", "ToJSON"}, {"jsonx", "Decoder", "Decode"}, {"jsonx", "Decoder", "More"},
 		{"jsonx", "Decoder", "DecodeSeries"}, {"jsonx", "", "unmarshalFile"},
 		{"strtoken", "", "isBareRune"}, {"strtoken", "", "lexBare"}, {"strtoken", "", "lexShell"},
@@ -255,6 +255,8 @@ func c08IntConsts(p *pkg) map[string]int64 {
 	return out
 }
 
+func jc0(p *pkg) map[string]int64 { return c08IntConsts(p) }
+
 func genJsonx(repo string, fs facts) (string, error) {
 	lx, err := loadPkg(repo, "lexing")
 	if err != nil {
@@ -383,6 +385,91 @@ func genJsonx(repo string, fs facts) (string, error) {
 		fallback = append(fallback, "parseValue")
 	}
 	f["signedFloatParsed"] = signedFloat
+
+	// --- nesting depth limit: a constant N, a guard function whose first
+	// statement is `if p.depth >= N { report; return false }` followed by
+	// p.depth++, called first thing in both bracket cases of parseValue, which
+	// decrement the depth again.  Anything else = no limit. ---
+	depthLimit := int64(-1)
+	if pv := jx.fn("", "parseValue"); pv != nil {
+		guards := map[string]int{}
+		decs := 0
+		ast.Inspect(pv.Body, func(m ast.Node) bool {
+			cc, ok := m.(*ast.CaseClause)
+			if !ok {
+				return true
+			}
+			bracket := false
+			for _, e := range cc.List {
+				if c, ok := e.(*ast.CallExpr); ok {
+					if _, nm, args, ok := callSel(c); ok && nm == "seeOp" && len(args) == 1 {
+						if a := jx.src(args[0]); a == `"{"` || a == `"["` {
+							bracket = true
+						}
+					}
+				}
+			}
+			if !bracket || len(cc.Body) == 0 {
+				return true
+			}
+			if ifs, ok := cc.Body[0].(*ast.IfStmt); ok && ifs.Init == nil {
+				if u, ok := ifs.Cond.(*ast.UnaryExpr); ok && u.Op == token.NOT {
+					if c, ok := u.X.(*ast.CallExpr); ok {
+						if _, nm, args, ok := callSel(c); ok && len(args) == 0 && len(ifs.Body.List) == 1 {
+							if _, isRet := ifs.Body.List[0].(*ast.ReturnStmt); isRet {
+								guards[nm]++
+							}
+						}
+					}
+				}
+			}
+			for _, st := range cc.Body {
+				if ids, ok := st.(*ast.IncDecStmt); ok && ids.Tok == token.DEC && strings.HasSuffix(jx.src(ids.X), ".depth") {
+					decs++
+				}
+			}
+			return true
+		})
+		for g, n := range guards {
+			if n != 2 || decs != 2 {
+				continue
+			}
+			gf := jx.fn("parser", g)
+			if gf == nil || len(gf.Body.List) < 2 {
+				continue
+			}
+			ifs, ok := gf.Body.List[0].(*ast.IfStmt)
+			if !ok {
+				continue
+			}
+			be, ok := ifs.Cond.(*ast.BinaryExpr)
+			if !ok || be.Op != token.GEQ || !strings.HasSuffix(jx.src(be.X), ".depth") {
+				continue
+			}
+			v, ok := evalInt(be.Y, 0, jc0(jx))
+			if !ok || v < 0 {
+				continue
+			}
+			retFalse := false
+			if n := len(ifs.Body.List); n > 0 {
+				if r, ok := ifs.Body.List[n-1].(*ast.ReturnStmt); ok && len(r.Results) == 1 && jx.src(r.Results[0]) == "false" {
+					retFalse = c08HasCall(ifs.Body, "CodeErrorfHere") || c08HasCall(ifs.Body, "CodeErrorf") || c08HasCall(ifs.Body, "Errorf") || c08HasCall(ifs.Body, "ErrorfHere")
+				}
+			}
+			inc := false
+			if ids, ok := gf.Body.List[1].(*ast.IncDecStmt); ok && ids.Tok == token.INC && strings.HasSuffix(jx.src(ids.X), ".depth") {
+				inc = true
+			}
+			if retFalse && inc {
+				depthLimit = v
+			}
+		}
+	}
+	if depthLimit >= 0 {
+		f["depthLimit"] = depthLimit
+	} else {
+		f["depthLimit"] = "none"
+	}
 
 	// --- LexNumber exponent signs ---
 	signs := []rune{}
@@ -520,7 +607,12 @@ func genJsonx(repo string, fs facts) (string, error) {
 	fmt.Fprintf(&b, "/-- runes LexNumber accepts after e/E besides a digit -/\ndef expSigns : List Nat := [%s]\n\n", strings.Join(signNums, ", "))
 	fmt.Fprintf(&b, "/-- jsonx.keywords -/\ndef keywords : List (List Nat) := [%s]\n\n", strings.Join(kwLean, ", "))
 	fmt.Fprintf(&b, "/-- token type codes (lexing.EOF/Comment/Illegal, jsonx tok*) -/\ndef tokenCodes : List (String × Int) := [%s]\n\n", strings.Join(codeLean, ", "))
-	b.WriteString("def cfg : Cfg := ⟨errMax, skipCond, signedFloatParsed, listBreaks, objBreaks⟩\n")
+	if depthLimit >= 0 {
+		fmt.Fprintf(&b, "/-- nesting limit of parseValue (jsonx.maxNestingDepth) -/\ndef depthLimit : Option Nat := some %d\n\n", depthLimit)
+	} else {
+		b.WriteString("/-- parseValue has no nesting limit -/\ndef depthLimit : Option Nat := none\n\n")
+	}
+	b.WriteString("def cfg : Cfg := ⟨errMax, skipCond, signedFloatParsed, listBreaks, objBreaks, depthLimit⟩\n")
 	b.WriteString("def lexCfg : LexCfg := ⟨expSigns, keywords⟩\n\n")
 	b.WriteString("end PubModel.Gen.Jsonx\n")
 	return b.String(), nil
